@@ -84,7 +84,7 @@ fn spec_for(prop: &str, _tier: Tier) -> Option<Spec> {
 		"C18" => Spec::new(
 			"C18",
 			"exploration",
-			"A case is one directory on which T threads and P child processes loop open -> (idle) -> drop, one variant with a long log replay so that a second open races the first open's recovery, children also killed with SIGKILL while holding the handle; holders call the administration entry points (clear_column, reset_column, add_column, drop_last_column) against their own live handle - each must be refused with the lock error and change nothing; at the end a tree reader is kept past the drop of its handle and the directory is opened again in this and in another process, and a drop is kept busy for 400 ms (its last queued commit dereferences a tree whose reader is still locked) while every open mode is tried against it: each attempt must be refused until drop has returned. A harness-side counter is raised after open returned Ok and lowered before drop is called: counter > 1 is a violation; every failed open must be a lock error and leave the directory content unchanged; after drop / kill the next open must succeed. evaluations = open attempts judged; distinct_nontrivial = distinct (opener kind, holder kind, outcome, replay pending) classes.",
+			"A case starts with a creation race (four threads call open_or_create at the same moment on a directory without a database: exactly one handle comes alive, what it commits is there after a reopen) and 1.5 s of spinning retries (four threads retry open in a tight loop across many open -> hold -> drop cycles, so attempts land in the middle of a drop), then one directory on which T threads and P child processes loop open -> (idle) -> drop, one variant with a long log replay so that a second open races the first open's recovery, children also killed with SIGKILL while holding the handle; holders call the administration entry points (clear_column, reset_column, add_column, drop_last_column) against their own live handle - each must be refused with the lock error and change nothing; at the end a tree reader is kept past the drop of its handle and the directory is opened again in this and in another process, and a drop is kept busy for 400 ms (its last queued commit dereferences a tree whose reader is still locked) while every open mode is tried against it: each attempt must be refused until drop has returned. A harness-side counter is raised after open returned Ok and lowered before drop is called: counter > 1 is a violation; every failed open must be a lock error and leave the directory content unchanged; after drop / kill the next open must succeed. evaluations = open attempts judged; distinct_nontrivial = distinct (opener kind, holder kind, outcome, replay pending) classes.",
 		)
 		.require("open_attempts", 2000)
 		.require("open_ok", 200)
@@ -92,6 +92,8 @@ fn spec_for(prop: &str, _tier: Tier) -> Option<Spec> {
 		.require("cross_process_locked", 50)
 		.require("reopen_after_kill", 5)
 		.require("race_with_recovery", 5)
+		.require("creation_races", 20)
+		.require("spinning_takeovers", 200)
 		.budget(60, 600),
 		_ => return None,
 	})
